@@ -361,14 +361,16 @@ class Cumulants(Lemma):
 
     def replay(self, model, clause, case):
         m = native_model(case)
-        n = int(clause.split("cumulant")[-1][0]) if "::cumulant" in clause else 2
-        h = 1e-2
+        import re
+        mm = re.search(r"cumulant(\d)$", clause)
+        n = int(mm.group(1)) if mm else 2
+        h = 5e-2
         # finite-difference derivative of the real exponent at 0 (central differences of order n)
         from math import comb
         d = sum((-1) ** k * comb(n, k) * complex(m.levy_exponent((n / 2 - k) * h)) for k in range(n + 1)) / h ** n
         want = ((-1j) ** n * d).real
         got = float(getattr(m.cumulant, f"cumulant{n}")(1.0))
-        return (abs(got - want) > 1e-2 * max(1.0, abs(want)), {"model": repr(m), "n": n, "stated_cumulant": got, "finite_difference_of_exponent": want})
+        return (abs(got - want) > 3e-2 * abs(want) + 1e-9, {"model": repr(m), "n": n, "stated_cumulant": got, "finite_difference_of_exponent": want})
 
 
 class Martingale(Lemma):
